@@ -7,7 +7,7 @@ import sympy as sp
 from . import tables
 from .absint import text
 from .core import AnalysisError
-from .lift import Lifter
+from .lift import Lifter, same_any
 from .quadalg import CtorEval, Arr, Stack, U, integrate_cube, monomials
 
 N = 'src/norms.py'
@@ -209,8 +209,9 @@ def check_singular_measure(prog, report):
         if isinstance(n, ast.Assign) and len(n.targets) == 1:
             a2.setdefault(text(n.targets[0]), []).append(
                 text(n.value).replace(' ', ''))
-    okr = len(rt) == 1 and text(rt[0].value).replace(' ', '') in (
-        '2*h**2*np.dot((fx-fxy)**2/xy_sqr,self.semi_1_2_weights)', )
+    okr = len(rt) == 1 and same_any(
+        rt[0].value,
+        '2 * h**2 * np.dot((fx - fxy)**2 / xy_sqr, self.semi_1_2_weights)')
     oks = (a2.get('h') == ['b-a']
            and a2.get('x_hat') == ['a+h*self.gauss_x.points']
            and a2.get('xy_hat') == ['a+h*self.semi_1_2_xy']
